@@ -3,7 +3,7 @@ import json, os, glob
 import numpy as np
 from .. import common, sched
 
-MODEL_SCHEDS = ("ltf", "lpsd", "vectorized_ltf")
+MODEL_SCHEDS = ("ltf", "lpsd", "vectorized_ltf", "new_ltf")
 MAX_SUMK = 25000
 
 
@@ -18,7 +18,7 @@ def load_corpus(pid):
 
 
 def run_sched_property(ck, pid, oracle, pfile, nquick, nthorough, analyzer=False, extra=None):
-    ck.build_theorems(pfile, deps=["SchedRun.vo", "SchedThms.vo", "SchedThms2.vo", "SchedMono.vo"])
+    ck.build_theorems(pfile, deps=["SchedRun.vo", "SchedThms.vo", "SchedThms2.vo", "SchedMono.vo", "NewLtf.vo"])
     n = nquick if ck.tier == "quick" else nthorough
     cfgs = [dict(c, family="corpus") for c in load_corpus(pid)]
     while len(cfgs) < n:
@@ -42,7 +42,7 @@ def run_sched_property(ck, pid, oracle, pfile, nquick, nthorough, analyzer=False
                 else:
                     key = (i, nm)
                     impls[key] = (cfg, res)
-                    terms.append((key, sched.coq_case_vec(cfg, res) if nm == "vectorized_ltf" else sched.coq_case_ltf(nm, cfg, res)))
+                    terms.append((key, sched.coq_case_vec(cfg, res) if nm == "vectorized_ltf" else (sched.coq_case_new(cfg, res) if nm == "new_ltf" else sched.coq_case_ltf(nm, cfg, res))))
     out = sched.run_models(terms)
     mism = {nm: [] for nm in MODEL_SCHEDS}
     nbins = 0
